@@ -10,6 +10,7 @@ import OmplModel.Proofs.LBKPIECE1Forest
 import OmplModel.Proofs.GridN
 import OmplModel.Proofs.GridSplit
 import OmplModel.Proofs.GridFresh
+import OmplModel.Proofs.DiscFresh
 /-!
 # C13 — grid discretizations track cells, neighbours, borders and components exactly
 
@@ -247,6 +248,40 @@ example (a b : α) : specRun ([] : Live) [DOp.add 0 [0, 0] a, .add 1 [0, 1] b, .
 def cfgD0 : Cfg := { dim := 0, limit := 0, ltE := fun a b => decide (a > b), ltI := fun a b => decide (a > b), ev := fun c => c.data }
 example : (run cfgD0 [.new [] 7]).external.arr.size = 0 ∧ (run cfgD0 [.new [] 7]).cells.map (·.border) = [false] := by
   decide
+
+/-- **the importance of every cell is current** (round 10, second lap; was an oracle clause only): after every
+history of `addMotion` / `selectMotion` / score change + `updateCell` / `removeMotion` / `countIteration` /
+`setBorderFraction` / `clear` (also reuse after `clear`), every grid cell has its `CellData`, and the key it is queued
+under is `computeImportance` of that data's CURRENT score and coverage and of the cell's CURRENT neighbour counter, with
+a selection count `s` that is at most the current one -- `selectMotion` does `++selections` without `grid_.update`, the
+only way a key can lag; everything else that moves an input of the formula (coverage in `addMotion`, score in
+`updateCell` and in the `score < epsilon` repair, the counter in `createCell`/`remove`) re-runs the event on that cell.
+With `disc_grid_invariants` (each cell in exactly one queue under this key, tops best) this closes the scoring loop.
+The freshness part needs no validity assumption (`drun_fresh`). -/
+theorem disc_importance_fresh (P : Params α) (bf : α) (ops : List (DOp α)) (hv : validFrom P [] ops) :
+    let d := drun P bf ops
+    ∀ c ∈ d.grid.cells, ∃ cd, lookup d.cdata c.coord = some cd ∧
+      ∃ s, s ≤ cd.selections ∧ c.data = P.enc (importance { cd with selections := s } c.nbrs) := by
+  intro d c hc
+  have hi := drun_inv P bf ops hv
+  have hk : c.coord ∈ keys d.cdata := by rw [← hi.sync]; exact List.mem_map.2 ⟨c, hc, rfl⟩
+  cases hl : lookup d.cdata c.coord with
+  | none => exact absurd hk (lookup_none_iff.1 hl)
+  | some cd => exact ⟨cd, rfl, drun_fresh P bf ops c hc cd hl⟩
+
+/-! non-vacuity: the clause is falsifiable (a cell whose key matches no admissible selection count violates it), and
+the grid of a valid history that stores a motion is not empty. -/
+example (P : Params α) (tbl : List (Coord × CellData α)) (c : Cell) (cd : CellData α) (hl : lookup tbl c.coord = some cd)
+    (h : ∀ s, s ≤ cd.selections → c.data ≠ P.enc (importance { cd with selections := s } c.nbrs)) : ¬ IQ P tbl c := by
+  intro hq
+  obtain ⟨s, hs, hd⟩ := hq cd hl
+  exact h s hs hd
+example (P : Params α) (bf : α) (ops : List (DOp α)) (hv : validFrom P [] ops) (p : Nat × Coord)
+    (hp : p ∈ specRun [] ops) : (drun P bf ops).grid.cells ≠ [] := by
+  have hi := drun_inv P bf ops hv
+  have := hi.cov p hp
+  rw [← hi.sync] at this
+  intro h0; rw [h0] at this; cases this
 
 end Discretization
 
@@ -813,6 +848,17 @@ theorem gridB_split_create_abandon_restores (cfg : Cfg) (ops : List GridS.Op) (h
     rw [hi'.count c' hc', hi.count c hc, hcc]
     exact cnt_congr (b1.trans a1.symm) _
   exact ⟨e1, by rw [hi'.border c' hc', hi.border c hc, e1]⟩
+
+/-- `components()` (the queue-based flood fill as coded, duplicate entries erased) on EVERY reachable state -- inside
+the window too -- is the partition of the present cells by the neighbour relation: `components_partition` composed with
+`gridB_split_inv`; an observer that remembered an earlier answer (seeded C13-s7) contradicts it. -/
+theorem gridB_split_components (cfg : Cfg) (ops : List GridS.Op) (hv : ∀ op ∈ ops, op.valid cfg.dim) :
+    let cells := (GridS.run cfg ops).g.cells
+    (components cfg.dim cells).flatten.Perm cells ∧
+    (∀ comp ∈ components cfg.dim cells, ∀ a ∈ comp, ∀ b ∈ cells, (b ∈ comp ↔ Reach cfg.dim cells a.coord b.coord)) ∧
+    (∀ comp ∈ components cfg.dim cells, comp ≠ []) ∧
+    (components cfg.dim cells).Pairwise (fun a b => a.length ≥ b.length) :=
+  components_partition (gridB_split_inv cfg ops hv).1
 
 /-- the tops are the best cells of the GRID after every split history, also inside the create…add window (the pending
 cell is in no queue and cannot be returned) -/
